@@ -94,7 +94,7 @@ def describe(line, verdict, case):
                           "InvCDF(dist)(y) itself is wrong: " + (_WHY.get(diag[0], "?") if diag else "?")][pos] if 0 <= pos <= 4 else "?"
             out["diag"] = diag
         elif op in (6, 7):
-            kinds = ["TDist", "UDist", "KDE", "BinomialDist", "HypergeometicDist", "NormalDist", "DeltaDist", "harness geometric (DiscreteDist)", "harness Poisson (DiscreteDist)"]
+            kinds = ["TDist", "UDist", "KDE", "BinomialDist", "HypergeometicDist", "NormalDist", "DeltaDist", "harness geometric (DiscreteDist)", "harness Poisson (DiscreteDist)", "harness atom + exponential tail", "harness power law"]
             out["distribution"] = kinds[line[2]] if 0 <= line[2] < len(kinds) else line[2]
             out["own_invcdf_method"], out["own_rand_method"] = bool(line[4] & 1), bool(line[4] & 2)
             if op == 7 and 0 <= pos <= 3:
